@@ -50,49 +50,26 @@ pub fn count_ended_tags<T: EbmlSpecification<T> + EbmlTag<T> + Clone>(tag_id: u6
         .map_or(0, |index| doc_path.len() - index)
 }
 
+fn path_matches(path: &[PathPart], doc_path: &[(u64, EBMLSize)]) -> bool {
+    match path.split_first() {
+        None => doc_path.is_empty(),
+        Some((PathPart::Id(id), rest)) => {
+            matches!(doc_path.first(), Some(item) if item.0 == *id) && path_matches(rest, &doc_path[1..])
+        },
+        Some((PathPart::Global((min, max)), rest)) => {
+            let available = doc_path.len() as u64;
+            let min = min.unwrap_or(0);
+            let max = max.map_or(available, |max| max.min(available));
+            (min..=max).any(|skipped| path_matches(rest, &doc_path[(skipped as usize)..]))
+        },
+    }
+}
+
 #[inline(always)]
 pub fn validate_tag_path<T: EbmlSpecification<T> + EbmlTag<T> + Clone>(tag_id: u64, doc_path: impl Iterator<Item = (u64, EBMLSize, usize)>) -> bool {
     let doc_path: Vec<(u64, EBMLSize)> = doc_path.map(|item| (item.0, item.1)).collect();
 
     // Any unknown sized tags ended by this element are no longer part of its path
     let open_count = doc_path.len() - count_ended_tags::<T>(tag_id, &doc_path);
-
-    let path = <T>::get_path_by_id(tag_id);
-    let mut path_marker = 0;
-    let mut global_counter = 0;
-    for item in &doc_path[..open_count] {
-        let current_node_id = item.0;
-
-        if path_marker >= path.len() {
-            return false;
-        }
-
-        match path[path_marker] {
-            PathPart::Id(id) => {
-                if id != current_node_id {
-                    return false;
-                }
-                path_marker += 1;
-            },
-            PathPart::Global((min, max)) => {
-                global_counter += 1;
-                if max.is_some() && global_counter > max.unwrap_or_default() {
-                    return false;
-                }
-                if path.len() > (path_marker + 1) && matches!(path[path_marker + 1], PathPart::Id(id) if id == current_node_id) {
-                    if min.is_some() && global_counter < min.unwrap_or_default() {
-                        return false;
-                    }
-                    path_marker += 2;
-                    global_counter = 0;
-                }
-            },
-        }
-    }
-
-    // Validate that we compared ALL parents in the path
-    path.len() == path_marker || 
-    // or that the last parent was a global whose minimum was met
-        ((path.len() - 1) == path_marker && matches!(path[path_marker], PathPart::Global((min, _)) if global_counter >= min.unwrap_or(0)))
-    
+    path_matches(<T>::get_path_by_id(tag_id), &doc_path[..open_count])
 }
